@@ -244,6 +244,20 @@ Error query_rw_info(const BaseInst& inst, const Operand_* operands, size_t op_co
         }
       }
     }
+
+    // TBL/TBX with 2..4 table registers: `tbl vd, {vn, vn+1, ...}, vm` - the table is a run of consecutive registers led by operand 1.
+    if ((real_id == Inst::kIdTbl_v || real_id == Inst::kIdTbx_v) && op_count > 3) {
+      bool all_regs = true;
+      for (uint32_t i = 1; i < op_count - 1; i++) {
+        all_regs &= operands[i].is_reg();
+      }
+      if (all_regs) {
+        out->_operands[1]._consecutive_lead_count = uint8_t(op_count - 2);
+        for (uint32_t i = 2; i < op_count - 1; i++) {
+          out->_operands[i].add_op_flags(OpRWFlags::kConsecutive);
+        }
+      }
+    }
   }
 
   return Error::kOk;
